@@ -48,7 +48,36 @@ func New(r *rand.Rand) *G {
 }
 
 // hostilePayloads break the framing of any reply that does not send payloads as bulk strings.
-var hostilePayloads = []string{"a\r\nb", "\r\n", "+OK", "-ERR x", "$-1", ":1", "", "\x00", "x\ny", "*2\r\n$1\r\na"}
+var hostilePayloads = []string{"a\r\nb", "\r\n", "+OK", "-ERR x", "$-1", ":1", "", "\x00", "x\ny", "*2\r\n$1\r\na", "a\r\r\n\nb", "c\rd", "\n\r", "e\r\n\r\n+f"}
+
+// lineBreakers are CR/LF arrangements aimed at code that cleans a line before sending it (an error text that echoes
+// a request argument): nested, repeated, lone and reversed terminators, each followed by something reply-shaped.
+var lineBreakers = []string{"a\r\n+b", "a\r\r\n\n+b", "a\n+b", "a\r+b", "a\n\r+b", "a\r\n\r\n:1", "\r\n\r\n", "a\r\r\r\n\n\n$-1", "a\r\n\n+b", "\r\r\n\n", "a\r \n+b"}
+
+// errorEcho returns a command that is refused with a message likely to quote one of its arguments.
+func (g *G) errorEcho() Cmd {
+	x := lineBreakers[g.R.Intn(len(lineBreakers))]
+	k := g.Keys[g.R.Intn(len(g.Keys))]
+	switch g.R.Intn(9) {
+	case 0:
+		return c(x) // unknown command name
+	case 1:
+		return c("SET", k, "v", x)
+	case 2:
+		return c("EXPIRE", k, x)
+	case 3:
+		return c("HRANDFIELD", k, "1", x)
+	case 4:
+		return c("RENAME", x, k)
+	case 5:
+		return c("INCRBY", k, x)
+	case 6:
+		return c("ZADD", k, x, "m")
+	case 7:
+		return c("XADD", k, x, "f", "v")
+	}
+	return c("LMOVE", k, k, x, "LEFT")
+}
 
 func isPayloadAlphabet(xs []string) bool {
 	for _, a := range [][]string{strValues, listElems, hashFields, hashValues, setMembers, zMembers} {
@@ -828,6 +857,10 @@ func Program(r *rand.Rand, family string, maxSteps int) []Cmd {
 	}
 	for i := 0; i < n; i++ {
 		fam := family
+		if family == FMixed && r.Intn(16) == 0 {
+			prog = append(prog, g.errorEcho())
+			continue
+		}
 		if family == FMixed || family == FCluster {
 			fam = []string{FString, FList, FHash, FSet, FZSet, FStream}[r.Intn(6)]
 		}
